@@ -161,6 +161,7 @@ def check(run):
     # conditions and every length; the row-view contract used at the call site in MCSSearch.find (results are records
     # taken from the arguments) is the first conjunct of what is proved here
     run.deductive(["contracts.mcs_select"])
+    run.deductive(["contracts.mcs_process"])
     run.assume("ExtractMCS.get_largest_condition is verified in the record view of contracts/mcs_select.py; MCSSearch.find uses the weaker row-view "
                "contract 'every result is one of the argument records', which is the first conjunct of the proved postcondition")
     rnd = random.Random(run.seed)
